@@ -296,6 +296,13 @@ fn eval_write(si: usize, format: Format, p: usize) -> (u64, Vec<Viol>) {
             ("what", J::s(what)),
         ])
     };
+    // a small spectrum written right after every faulted write on the same thread: what an earlier,
+    // failed write left behind must not show up in a later one
+    let after = &write_spectra()[if si == 0 { 1 } else { 0 }];
+    let mut after_base = SeamWriter::short(usize::MAX);
+    let _ = write_with(after, format, p, &mut after_base);
+    let after_base = after_base.out;
+    let mut after_reported = false;
     let big = si >= FIRST_BIG_WRITE;
     let short_sizes: &[usize] = if big { &[1, 7, 512, 1000, 4095, 4096, 4097] } else { &[1, 2, 3, 7] };
     for &k in short_sizes {
@@ -324,6 +331,19 @@ fn eval_write(si: usize, format: Format, p: usize) -> (u64, Vec<Viol>) {
                 w.fail_at = Some(at);
             }
             let r = write_with(x, format, p, &mut w);
+            if !after_reported {
+                evals += 1;
+                let mut w2 = SeamWriter::short(usize::MAX);
+                let r2 = write_with(after, format, p, &mut w2);
+                if r2.is_err() || w2.out != after_base {
+                    after_reported = true;
+                    viols.push((
+                        format!("C18|lib|write-after-failed-write|{fname}"),
+                        format!("after a write of spectrum {si} as {fname} that failed at offset {at} ({}), the next write on the same thread gives {r2:?} with {} bytes instead of the {} bytes it gives otherwise", if zero { "Ok(0)" } else { "Err" }, w2.out.len(), after_base.len()),
+                        case(format!("after fault {at} zero={zero}")),
+                    ));
+                }
+            }
             match r {
                 Err(e) if e.starts_with("panic:") => viols.push((
                     format!("C18|lib|write-fault-panic|{fname}|{}", norm_msg(&e)),
@@ -638,6 +658,22 @@ pub fn run(tier: Tier) -> i32 {
             evaluations: sinks.len() as u64,
             nontrivial: sinks.len() as u64,
             note: "create / view (text, npy) / fold / stat (also with --header) with stdout = /dev/full, with stdout = a pipe whose reader is gone, and with -o /dev/full, small and >64 KiB outputs: every write fails (ENOSPC / EPIPE), so the run must end in a diagnosed error".into(),
+            exhaustive: true,
+            extra: vec![],
+        });
+    }
+    // the third stream the library reads: a samples list (shared with C09) - chunking must not matter
+    // and a failing stream must fail
+    {
+        let (n, viols) = super::c09::check_map_from_reader();
+        for (k, w, j) in viols {
+            rep.violation(k.replacen("C09|", "C18|", 1), w, j);
+        }
+        rep.part(Part {
+            name: "lib: sample lists from chunked and failing streams".into(),
+            evaluations: n,
+            nontrivial: n,
+            note: "sample::Map::from_reader on a five-line stream in one piece and in chunks of 1, 2, 3, 5, 7, 64 bytes, failing at every byte offset under each chunking, and with each line in turn not UTF-8: the complete list or an error, never a shorter list".into(),
             exhaustive: true,
             extra: vec![],
         });
